@@ -521,7 +521,9 @@ func c17Stress(c *ctx) {
 		copy(k[:], r.bytes(32))
 		s, ex, _, err := server.VerifGetSession(u, sid, k)
 		if err != nil {
-			server.VerifCloseSession(u, sid, "") // what dispatchConnection does on a refused session
+			if !strings.Contains(err.Error(), "terminated") { // (a retired record sends the dispatcher back to the lookup)
+				server.VerifRefusedCleanup(u, sid) // what dispatchConnection does on a refused session
+			}
 			return
 		}
 		if !ex {
